@@ -391,6 +391,7 @@ func (in *inst) check(r *vs.Result) []string {
 			got := hx.MirrorTolerant(o.list, in.leaf.Received)
 			if got != in.nodeFinal[in.leaf.Path] && !deferredNoFilter {
 				add("C06", "event stream does not converge to the cache", "leaf %s: content at readiness %s + events %v gives %s but its cache holds %s", in.leaf.Path, o.list, in.leaf.Received, got, in.nodeFinal[in.leaf.Path])
+				add("C02", "filtered subscription: event stream does not converge to the cache", "leaf %s: content at readiness %s + events %v gives %s but its cache holds %s", in.leaf.Path, o.list, in.leaf.Received, got, in.nodeFinal[in.leaf.Path])
 			}
 		}
 	}
@@ -455,6 +456,9 @@ func configs(tier string) []cfg {
 		{Name: "fsub[l=1]/refilter(l=0)/upd-a2(l=0),cre-b3", Variant: "fsub", F0: 2, Init: init1, Hist: h2, Refs: []int{3}, Mode: "S2", Bound: d},
 		{Name: "fsub[l=1]/refilter(l=0,l=1)/h3", Variant: "fsub", F0: 2, Init: init1, Hist: h3, Refs: []int{3, 2}, Mode: "S2", Bound: d},
 		{Name: "fsub[l=1]/refilter(FN)/relist", Variant: "fsub", F0: 2, Init: init1, Hist: hr, Refs: []int{5}, Mode: "S2", Bound: d},
+		// widening NSName refilters (by a wildcard id, by a second full id) and back: a Refilter wrongly taken for "equal" is dropped
+		{Name: "fsub[name=a]/refilter(name=a|ns/*)/h2", Variant: "fsub", F0: 4, Init: init2, Hist: h2, Refs: []int{9}, Mode: "S2", Bound: d},
+		{Name: "fsub[name=a]/refilter(name in a,b ; name=a)/h2", Variant: "fsub", F0: 4, Init: init2, Hist: h2, Refs: []int{8, 4}, Mode: "S2", Bound: d},
 		{Name: "dsub/refilter(l=1)/h2", Variant: "dsub", Init: init1, Hist: h2, Refs: []int{2}, Mode: "S2", Bound: d},
 		{Name: "dsub/refilter(All,l=1)/h2", Variant: "dsub", Init: init1, Hist: h2, Refs: []int{1, 2}, Mode: "S2", Bound: d},
 		{Name: "dsub/norefilter/h2", Variant: "dsub", Init: init1, Hist: h2, Mode: "S2", Bound: d},
@@ -532,10 +536,24 @@ func controllerScenarios(tier string) []runner.Sc {
 		mk("first-list-ok", ctl.Cfg{}, false),
 		mk("first-list-slow", ctl.Cfg{ListFaults: map[int]fakeapi.ListFault{1: {Latency: time.Second}}}, false),
 		mk("first-list-error", ctl.Cfg{ListFaults: map[int]fakeapi.ListFault{1: {Kind: "error"}}}, true),
+		mk("first-list-error+emptylist", ctl.Cfg{ListFaults: map[int]fakeapi.ListFault{1: {Kind: "error+list"}}}, true),
 		mk("first-list-nonlist", ctl.Cfg{ListFaults: map[int]fakeapi.ListFault{1: {Kind: "nonlist"}}}, true),
 		mk("close-while-first-list-blocks", ctl.Cfg{ListFaults: map[int]fakeapi.ListFault{1: {Kind: "block"}}, Close: ctl.CloseSpec{Kind: "close", AfterMut: -1, At: time.Second}}, true),
 		mk("ctx-cancel-while-first-list-blocks", ctl.Cfg{ListFaults: map[int]fakeapi.ListFault{1: {Kind: "block"}}, Close: ctl.CloseSpec{Kind: "ctx", AfterMut: -1, At: time.Second}}, true),
 	}
+}
+
+// C02FilterScenarios: the filtered-subscription half of C02 - a consumer that replays a filtered subscription's
+// events over the content it read at readiness ends with that subscription's cache, whatever parent events and
+// Refilter calls interleave (only that clause is judged under C02; the others are C06's and C08's).
+func C02FilterScenarios(tier string) []runner.Sc {
+	var out []runner.Sc
+	for _, c := range configs(tier) {
+		if len(c.Refs) > 0 && len(c.Hist) > 0 {
+			out = append(out, scenario("C02", c))
+		}
+	}
+	return out
 }
 
 func Property(id string) runner.Property {
